@@ -156,3 +156,46 @@ extern "C" int split()
   vf_reach("end");
   return 0;
 }
+
+// ---- what reaches execvpe: executable, argument vector, environment - for the three forms of Process::open.
+// vfork() is replaced by a stub returning 0 (the child side), execvpe() by a stub that compares its arguments with what the
+// harness passed in and then ends the (child) process. No pipes (streams == 0).
+static const char* g_wantExe; static const char* g_wantArgv[6]; static unsigned g_wantArgc; static bool g_wantEnv;
+extern "C" char** environ;
+extern "C" int vf_vfork() { return 0; }
+extern "C" int vf_execvpe(const char* file, char* const argv[], char* const envp[])
+{
+  vf_assert(String::compare(file, g_wantExe) == 0, "exec: the executable is the one given");
+  for(unsigned i = 0; i < g_wantArgc; ++i)
+  {
+    vf_assert(argv[i] != 0, "exec: argument vector shorter than given");
+    vf_assert(String::compare(argv[i], g_wantArgv[i]) == 0, "exec: argument == the one given");
+  }
+  vf_assert(argv[g_wantArgc] == 0, "exec: argument vector ends after the given arguments");
+  if(g_wantEnv)
+  {
+    vf_assert(envp != environ, "exec: the given environment is used, not the parent's");
+    vf_assert(envp[0] != 0 && String::compare(envp[0], "K=V") == 0 && envp[1] != 0 && String::compare(envp[1], "L=W") == 0 && envp[2] == 0, "exec: the environment is exactly the one given");
+  }
+  else
+    vf_assert(envp == environ, "exec: no environment given: the parent's is passed on");
+  vf_reach("exec"); vf_reach("end");
+  _exit(0);
+  return -1;
+}
+extern "C" int exec_args()
+{
+  static char a0[] = "prog", a1[] = "a b", a2[] = "-x";
+  static char* env0[] = {0}; environ = env0;
+  unsigned form = vf_pick(4);
+  g_wantEnv = vf_pick(2);
+  Map<String, String> env; if(g_wantEnv) { env.insert(String("K"), String("V")); env.insert(String("L"), String("W")); }
+  g_wantExe = "prog"; g_wantArgv[0] = "prog"; g_wantArgv[1] = "a b"; g_wantArgv[2] = "-x"; g_wantArgc = 3;
+  Process p;
+  if(form == 0) { char* argv[] = {a0, a1, a2}; p.open(String("prog"), 3, argv, 0, env); }                 // argv without a terminating null
+  else if(form == 1) { char* argv[] = {a0, a1, a2, 0}; p.open(String("prog"), 4, argv, 0, env); }        // argv with it (as the other forms pass it)
+  else if(form == 2) { List<String> args; args.append(String("prog")); args.append(String("a b")); args.append(String("-x")); p.open(String("prog"), args, 0, env); }
+  else p.open(String("prog \"a b\" -x"), 0, env);
+  vf_assert(false, "exec was not reached");
+  return 0;
+}
